@@ -718,6 +718,11 @@ pub fn run(id: &str, tier: &str, seed: u64) -> i32 {
         }
     }
     let _ = known;
+    if ev.samples.is_empty() {
+        if let Some(p) = progs.first() {
+            ev.samples.push(json!({"macro": p.mac, "branches": p.branches.iter().map(render_branch_macro).collect::<Vec<_>>(), "run": "no per-run sample was reported for this program"}));
+        }
+    }
     ev.violations = found.len() as u64;
     let mut exit = 0;
     found.sort_by_key(|f| f.2);
